@@ -102,7 +102,7 @@ def clause_b(ctx, P):
     # same index: the tested entry is the removed one
     if rem:
         idx_rm = rem[0][2][1]
-        same = any(any(x[0] == "call" and name_matches(strip_generics(x[1]), "Index::index") and len(x[2]) > 1 and strip(x[2][1]) == strip(idx_rm) for x in walk(atom_))
+        same = any(any(x[0] == "call" and (name_matches(strip_generics(x[1]), "Index::index") or method(strip_generics(x[1])) in ("get", "get_mut")) and len(x[2]) > 1 and strip(x[2][1]) == strip(idx_rm) for x in walk(atom_))
                    for atom_ in _atoms(P, run, e_due))
         ctx.ob("C19b.same-entry", run.name, same, run.loc(eb), "the entry tested for being due is the entry removed and executed")
 
